@@ -422,3 +422,43 @@ def sym_compare(exe, sk_index, items, want_outline=True, want_hover=True, want_h
                         bad.append(dict(base, kind="sym-hints", file=path, range=[lo, hi], model=mhi, observed=rhi))
                         break
     return bad, stats
+
+
+# ------------------------------------------------------------------ extraction cross-check inside Coq (vm_compute)
+def coq_tree(node, text_bytes):
+    if node[0] == "T":
+        s = text_bytes[node[2]:node[3]].decode("utf-8")
+        return "Tok S_%s [%s]" % (node[1], ";".join(str(ord(c)) for c in s))
+    return "Node S_%s [%s]" % (node[1], "; ".join(coq_tree(c, text_bytes) for c in node[4]))
+
+
+def coq_crosscheck(cases, tag):
+    """cases: list of (tree, text, folding ranges as produced by the EXTRACTED model, [(lo, hi, doc-or-None as produced by the
+    extracted model)]).  The same terms are evaluated by vm_compute inside Coq; returns (ok, n_goals, log)."""
+    body = ["From Coq Require Import List NArith.", "From TG.Gen Require Import GenTokens.",
+            "From TG.Model Require Import Chars Tree TreeNav Folding DocComments.", "Import ListNotations.", "Open Scope N_scope.", ""]
+    n = 0
+    for i, (tree, text, folds, docs) in enumerate(cases):
+        tb = text.encode("utf-8")
+        body.append("Definition t%d : tree := %s." % (i, coq_tree(tree, tb)))
+        body.append("Goal folding_model t%d = [%s]. Proof. vm_compute. reflexivity. Qed." % (
+            i, "; ".join("(%d, %d)" % (a, b) for a, b in folds)))
+        n += 1
+        for lo, hi, doc in docs:
+            rhs = "DocNone" if doc is None else "DocSome [%s]" % ";".join(str(ord(c)) for c in doc)
+            body.append("Goal extract_doc_comments t%d %d %d = %s. Proof. vm_compute. reflexivity. Qed." % (i, lo, hi, rhs))
+            n += 1
+    d = os.path.join(vlib.CACHE, "outline-xc")
+    os.makedirs(d, exist_ok=True)
+    name = "XC_%s_%s" % (tag, vlib.sha("\n".join(body))[:10])
+    path = os.path.join(d, name + ".v")
+    with open(path, "w") as f:
+        f.write("\n".join(body) + "\n")
+    rc, out = vlib.sh(["coqc", "-noglob", "-Q", "gen", "TG.Gen", "-Q", "model", "TG.Model", "-Q", "proofs", "TG.Proofs", path],
+                      cwd=vlib.COQ, timeout=300)
+    for ext in (".v", ".vo", ".vok", ".vos", ".glob"):
+        try:
+            os.remove(os.path.join(d, name + ext))
+        except OSError:
+            pass
+    return rc == 0, n, out[-1500:]
